@@ -161,6 +161,15 @@ def _make_defs(seed, n_random, n_groups):
                f"    fn {mid}_1(&self, a0: u32) -> {body} {{ loop {{}} }}\n}}")
         defs.append({"id": mid, "kind": "trait", "src": src, "nontrivial": True, "label": "trait-level-result-alias/no_int_result",
                      "extra": PRELUDE + "//@@" + imp + probes(mid, _T(tn)), "trait": tn, "exported": [f"{mid}_0", f"{mid}_1"]})
+    # user-declared extern "C" methods with an integer-coded result spelled through a one-parameter alias
+    for k, (attr_t, attr_m, ret) in enumerate([("#[int_result(ResU)]\n", "", "ResU<u64>"), ("", "#[int_result(ResIo)] ", "ResIo<u32>"), ("#[int_result(ResU)]\n", "", "ResU<()>")]):
+        tn, mid = f"Eb{k}", f"b{k}"
+        src = (f"{attr_t}#[allow(improper_ctypes_definitions)]\npub trait {tn} {{\n    {attr_m}extern \"C\" fn {mid}_0(&self, v: usize) -> {ret};\n"
+               f"    fn {mid}_1(&self) -> u32;\n}}\n")
+        imp = (f"pub struct D{mid};\nimpl {tn} for D{mid} {{\n    #[allow(improper_ctypes_definitions)]\n    extern \"C\" fn {mid}_0(&self, v: usize) -> {ret} {{ loop {{}} }}\n"
+               f"    fn {mid}_1(&self) -> u32 {{ loop {{}} }}\n}}")
+        defs.append({"id": mid, "kind": "trait", "src": src, "nontrivial": True, "label": "extern-c-method/int_result-alias", "lint": False,   # (the user's own extern "C" signature carries the Result: only the vtable entry is judged)
+                     "extra": PRELUDE + "//@@" + imp + probes(mid, _T(tn)), "trait": tn, "exported": [f"{mid}_0", f"{mid}_1"]})
     rnd = []
     for k in range(n_random):
         trng = random.Random(rng.getrandbits(64))
